@@ -3,7 +3,7 @@ import sys
 import common, enumrun, docfix as F, bundles as B
 
 ALLT = ["Text", "Int", "Numeric", "Bool", "Any", "Choice", "ChoiceList", "Ref:A", "RefList:A", "Date", "DateTime:UTC", "Ref:B"]
-POOL = ["x", "", None, 0, 5, 1.5, True, ["L", 1], ["L", 2, 3], "2020-01-02", "1", "[1,2]", 3]
+POOL = ["x", "", None, 0, 5, 1.5, True, ["L", 1], ["L", 2, 3], "2020-01-02", "1", "[1,2]", 3, -1e20, float(2 ** 53), -12.0]
 COLS = [("A", "Name"), ("A", "N"), ("A", "K"), ("B", "R"), ("B", "L")]
 _base = {}
 warm_up = B.warm_up
@@ -13,6 +13,18 @@ def base(fx):
   if fx not in _base:
     _base[fx] = F.Saved(F.build(fx, replica=False))
   return _base[fx]
+
+
+def text_reference(v):
+  """Numeric/Int/Bool -> Text, written independently from the rule documented in usertypes.Text.do_convert: whole numbers a
+  double holds exactly (magnitude below 2**53) as integer digits, other floats with 15 significant digits"""
+  if isinstance(v, float):
+    if v != v or v in (float("inf"), float("-inf")):
+      return str(v)
+    if -(2 ** 53) < v < 2 ** 53 and v == int(v):
+      return str(int(v))
+    return "%.15g" % v
+  return str(v)
 
 
 def judge(fx, t, c, src, dst, vals):
@@ -35,6 +47,10 @@ def judge(fx, t, c, src, dst, vals):
   got = [F.enc(col.raw_get(r)) for r in rows]
   if not F.eq(exp, got):
     return "%s.%s %s->%s: cells %s became %s, the new type's conversion gives %s" % (t, c, src, dst, [F.enc(v) for v in raw_before], got, exp), True
+  if dst == "Text":
+    for v, g in zip(raw_before, got):
+      if isinstance(v, (int, float)) and g != text_reference(v):
+        return "%s.%s %s->Text: stored %r became %r, the documented rule gives %r" % (t, c, src, v, g, text_reference(v)), True
   after = F.snap(d.e)
   summ = d.summary_tables()
   rev = set()
@@ -92,7 +108,8 @@ def replay(w):
 
 META = {
   "files": ["sandbox/grist/useractions.py", "sandbox/grist/docactions.py", "sandbox/grist/usertypes.py", "sandbox/grist/column.py"],
-  "oracle": "every cell of the retyped column == the new column's convert(previous raw value) (encoded); no data cell of another "
+  "oracle": "every cell of the retyped column == the new column's convert(previous raw value) (encoded), and for numbers -> Text also == an "
+            "independently written reference of the documented formatting rule; no data cell of another "
             "ordinary user table column changes, apart from the reverse column of a two-way reference; summary tables are judged "
             "by C12; a rejected type change leaves the document unchanged",
   "rule": "one evaluation = one (column, source type, target type, two cell contents) cube; non-trivial = the type change was applied",
